@@ -144,6 +144,7 @@ pub fn direct(prop: &str, tier: Tier, caps: &Caps) -> Vec<FamilyReport> {
     match prop {
         "C07" => crate::d_c07::run(tier, caps),
         "C09" => crate::d_c09::run(tier, caps),
+        "C10" => crate::d_c10::run(tier, caps),
         "C14" => crate::d_c14::run(tier, caps),
         "C17" => crate::d_c17::run(tier, caps),
         "C19" => crate::d_c19::run(tier, caps),
